@@ -331,6 +331,19 @@ func TestVerifK8sRecDeliver(t *testing.T) {
 		}
 		interval := time.Duration(3000+r.Intn(3000)) * time.Microsecond
 		startLate := id%3 != 0 // two thirds of the runs: nobody receives when the first timer fires
+		// every other run: the session manager logs at DEBUG level (it then dumps the configuration it has just
+		// handed over, passwords retracted) and some peer has a plain-text password
+		debug := id%2 == 1
+		var lvl logging.Level = logging.LevelInfo
+		if debug {
+			lvl = logging.LevelDebug
+			ss[0].Password = "s3cr3t"
+		}
+		// two runs: afterwards a steady stream of Sets closer together than the debounce interval
+		stream := id == 2 || id == 5
+		if stream {
+			interval, startLate = 30*time.Millisecond, false
+		}
 		scheme := runtime.NewScheme()
 		if err := frrv1beta1.AddToScheme(scheme); err != nil {
 			t.Fatal(err)
@@ -339,13 +352,17 @@ func TestVerifK8sRecDeliver(t *testing.T) {
 		rec := &FRRK8sReconciler{Client: cl, Logger: log.NewNopLogger(), LogLevel: logging.LevelInfo, Scheme: scheme, NodeName: node,
 			FRRK8sNamespace: ns, configChangedChan: make(chan struct{}), reconcileChan: make(chan event.GenericEvent)}
 		debouncer(rec.configChangedChan, rec.reconcileChan, interval)
-		sm := frrk8s.NewSessionManager(log.NewNopLogger(), logging.LevelInfo, node, ns)
+		sm := frrk8s.NewSessionManager(log.NewNopLogger(), lvl, node, ns)
 		var pmu sync.Mutex
 		var produced *frrv1beta1.FRRConfiguration
+		var producedAll []string // stream runs: every produced configuration, in order
 		sm.SetEventCallback(func(c interface{}) {
 			cfg := c.(frrv1beta1.FRRConfiguration)
 			pmu.Lock()
 			produced = cfg.DeepCopy()
+			if stream {
+				producedAll = append(producedAll, vRecSpecJSON(produced))
+			}
 			pmu.Unlock()
 			rec.UpdateConfig(c)
 		})
@@ -363,7 +380,7 @@ func TestVerifK8sRecDeliver(t *testing.T) {
 					case dirty <- struct{}{}:
 					default:
 					}
-					if r := id % 2; r == 0 {
+					if r := id % 4; r == 0 && !stream {
 						time.Sleep(2 * interval) // busy pushing the event
 					}
 				case <-stop:
@@ -382,18 +399,58 @@ func TestVerifK8sRecDeliver(t *testing.T) {
 			}
 		}()
 		apiErr := false
+		var first bgp.Session
 		for _, s := range ss {
 			se, err := sm.NewSession(log.NewNopLogger(), vParams(s))
 			if err != nil {
 				apiErr = true
 				break
 			}
+			if first == nil {
+				first = se
+			}
 			if err := se.Set(vAdvertisements(s)...); err != nil {
 				apiErr = true
 				break
 			}
 		}
+		if stream && !apiErr {
+			// 110 Sets 5 ms apart (each produces a DIFFERENT configuration): the API must keep up - after the k-th
+			// Set it holds one of the last 40 produced configurations
+			out.Stat("deliver_stream_runs", 1)
+			b := ss[0]
+			for k := 1; k <= 110 && !apiErr; k++ {
+				time.Sleep(5 * time.Millisecond)
+				b.Advs = []vAdv{{Prefix: "172.16.1.10/32", LP: uint32(k), Comms: []string{}}}
+				if err := first.Set(vAdvertisements(b)...); err != nil {
+					apiErr = true
+					break
+				}
+				cur := frrv1beta1.FRRConfiguration{}
+				_ = cl.Get(context.TODO(), key, &cur)
+				got := vRecSpecJSON(&cur)
+				pmu.Lock()
+				lag := -1
+				for j := len(producedAll) - 1; j >= 0; j-- {
+					if producedAll[j] == got {
+						lag = len(producedAll) - 1 - j
+						break
+					}
+				}
+				np := len(producedAll)
+				pmu.Unlock()
+				if k >= 40 && (lag < 0 || lag >= 40) {
+					out.Fail("k8s-delivery-starved-by-updates", fmt.Sprintf("run %d: after %d session updates 5 ms apart (debounce interval %v, consumer idle) the FRRConfiguration in the API is %s: updates keep pushing the pending reconcile back",
+						id, k, interval, map[bool]string{true: "none of the configurations produced so far", false: fmt.Sprintf("%d configurations behind", lag)}[lag < 0]),
+						map[string]any{"sessions": ss, "produced_so_far": np, "in_api": json.RawMessage(got)})
+					apiErr = true
+				}
+			}
+		}
 		out.Stat("deliver_runs", 1)
+		if debug {
+			out.Stat("deliver_debug_level_with_password", 1)
+		}
 		if startLate {
 			out.Stat("deliver_consumer_started_late", 1)
 		}
